@@ -71,6 +71,7 @@ var (
 				Description: "Billing Fee Amount",
 				Enc:         encoding.ASCII,
 				Pref:        prefix.ASCII.Fixed,
+				Pad:         padding.Left('0'),
 			}),
 			9: field.NewString(&field.Spec{
 				Length:      8,
